@@ -208,6 +208,8 @@ impl Source {
 /// the standard list of sources for the semantics properties
 pub fn standard_sources(run: &Run, with_formulas: bool) -> Vec<Source> {
     let mut v = vec![
+        // the ADF without statements
+        Source::Fam(fam_a(0)),
         Source::FamAllWriters(fam_a(1)),
         Source::FamAllWriters(fam_a(2)),
         Source::Fam(fam_f(3, 2)),
